@@ -6,16 +6,21 @@ of the failing table-location spellings; mode "repaired" = DESIGN 7.1 candidate 
 spec/MC_NormalizePath.tla (one TLC state per spelling: all strings up to MaxLen over {/ . d a t m e x} plus
 a named list).
 
-    run_normalize(ctx, quick)   (a) TLC: Characterisation (NormalizeAgrees fails exactly where the spelling
-                                    bites into an internal path), RepairedAgrees, UsableUnlessBites; the
-                                    companion AsIsAgrees must FAIL (the defect is in the domain);
-                                (b) differential: TLA+ Normalize vs the real _normalize_path on the whole
-                                    exported input table (mismatch = model drift note, never a violation);
-                                (c) every spelling for which the REAL function makes the listed and a
-                                    referenced form of a live file disagree (or two files collapse) is
-                                    reported as ctx.violation("gc-normalize:<class>", ...).
-    failing_spellings()         the spellings of (c), computed with the real function (no TLC), so that an
-                                end-to-end GC replay can target them.
+    run_normalize(ctx, quick)   (0) probe_mode(): which mode of the model ("asis" | "repaired") describes the real
+                                    collector (decided by the real functions' behaviour on the classic bad
+                                    spellings; see Adapter for the method names a repaired collector may use);
+                                (a) TLC: Characterisation (the as-is function fails NormalizeAgrees exactly
+                                    where the spelling bites into an internal path), RepairedAgrees,
+                                    UsableUnlessBites; the companion AsIsAgrees must FAIL;
+                                (b) differential: the faithful mode's tables (Normalize, or Candidate/Reach of
+                                    the repaired mode) vs the real functions on the whole exported domain
+                                    (mismatch = model drift note, never a violation);
+                                (c) every spelling for which the REAL functions make the listed and a
+                                    referenced form of a live file disagree (or two files collapse / alias)
+                                    is reported as ctx.violation("gc-normalize:<class>", ...).
+    failing_spellings()         the spellings of (c), computed with the real functions (no TLC).
+    asis_failing_spellings()    the spellings that bite (fail without the repair): regression targets for an
+                                end-to-end GC replay, also after the repair.
     spelling_class(T)           the coarse class used in the signatures.
 
 This module does not register a property; C05's check calls it.
@@ -47,15 +52,49 @@ def _ref(T: str, p: str, form: str) -> str:
     return T + ("" if T.endswith("/") else "/") + p
 
 
-def _real_normalizer() -> Any:
-    from datashard.garbage_collector import GarbageCollector
+LISTED_FN_NAMES = ["_normalize_listed_path", "_normalize_listed", "_listed_key", "_candidate_key"]
+REACH_FN_NAMES = ["_reachable_keys", "_reference_keys", "_referenced_keys", "_normalize_referenced", "_normalize_reference"]
 
-    gc = GarbageCollector.__new__(GarbageCollector)
 
-    def norm(T: str, path: str) -> str:
-        gc.table_path = T
-        return str(gc._normalize_path(path))
-    return norm
+class Adapter:
+    """The real functions GC uses to key a LISTED path (candidate) and a REFERENCED path (reachable keys).
+
+    As the code is (one function on both sides) both are GarbageCollector._normalize_path.  A repaired collector may
+    key the two sides differently (DESIGN 7.1: listed paths only lstripped; a reference contributes both readings):
+    it is recognised when it exposes a listed-side method named one of LISTED_FN_NAMES and/or a reference-side method
+    named one of REACH_FN_NAMES (returning a string or an iterable of strings); otherwise _normalize_path is used."""
+
+    def __init__(self) -> None:
+        from datashard.garbage_collector import GarbageCollector
+
+        self.gc = GarbageCollector.__new__(GarbageCollector)
+        self.listed_name = next((n for n in LISTED_FN_NAMES if hasattr(GarbageCollector, n)), "_normalize_path")
+        self.reach_name = next((n for n in REACH_FN_NAMES if hasattr(GarbageCollector, n)), "_normalize_path")
+
+    def normalize(self, T: str, path: str) -> str:
+        self.gc.table_path = T
+        return str(self.gc._normalize_path(path))
+
+    def candidate(self, T: str, listed: str) -> str:
+        self.gc.table_path = T
+        return str(getattr(self.gc, self.listed_name)(listed))
+
+    def reach(self, T: str, ref: str) -> frozenset:
+        self.gc.table_path = T
+        r = getattr(self.gc, self.reach_name)(ref)
+        return frozenset([r]) if isinstance(r, str) else frozenset(str(x) for x in r)
+
+
+def probe_mode(ad: Optional[Adapter] = None) -> str:
+    """Which mode of NormalizePath.tla describes the code as it is: 'asis' (string-prefix strip on both sides, the
+    S3 defect) or 'repaired' (listed and referenced spellings of a live file agree for the classic bad spellings)."""
+    ad = ad or Adapter()
+    for T in ("data", "d", "/data", "metadata", "m"):
+        for p in ("data/x", "metadata/manifests/x"):
+            for form in REF_FORMS:
+                if ad.candidate(T, p) not in ad.reach(T, _ref(T, p, form)):
+                    return "asis"
+    return "repaired"
 
 
 def domain(max_len: int = 4) -> List[str]:
@@ -80,15 +119,21 @@ def spelling_class(T: str) -> str:
     return "other"
 
 
-def _disagreements(norm: Any, T: str) -> List[Dict[str, str]]:
-    """Listed vs referenced forms of the same live file that normalise differently, and distinct files that collapse."""
+def _disagreements(ad: Adapter, T: str) -> List[Dict[str, str]]:
+    """Listed vs referenced forms of the same live file that GC would not match, and distinct files that collapse
+    (judged on the REAL functions)."""
     bad: List[Dict[str, str]] = []
-    cand = {p: norm(T, p) for p in INTERNAL}
+    cand = {p: ad.candidate(T, p) for p in INTERNAL}
     for p in INTERNAL:
         for form in REF_FORMS:
             ref = _ref(T, p, form)
-            if norm(T, ref) != cand[p]:
-                bad.append({"file": p, "form": form, "referenced": ref, "normalized_referenced": norm(T, ref), "normalized_listed": cand[p]})
+            keys = ad.reach(T, ref)
+            if cand[p] not in keys:
+                bad.append({"file": p, "form": form, "referenced": ref, "normalized_referenced": "|".join(sorted(keys)), "normalized_listed": cand[p]})
+            for q in INTERNAL:
+                if q != p and cand[q] in keys:
+                    bad.append({"file": q, "form": "aliased-by:" + form, "referenced": ref, "normalized_referenced": "|".join(sorted(keys)),
+                                "normalized_listed": cand[q]})
     for p, q in itertools.combinations(INTERNAL, 2):
         if cand[p] == cand[q]:
             bad.append({"file": p, "form": "collapse", "referenced": q, "normalized_referenced": cand[q], "normalized_listed": cand[p]})
@@ -96,62 +141,98 @@ def _disagreements(norm: Any, T: str) -> List[Dict[str, str]]:
 
 
 def failing_spellings(max_len: int = 4) -> List[str]:
-    """Table-location spellings for which the REAL _normalize_path breaks NormalizeAgrees."""
-    norm = _real_normalizer()
-    return [T for T in domain(max_len) if _disagreements(norm, T)]
+    """Table-location spellings for which the REAL collector keys break NormalizeAgrees (empty once repaired)."""
+    ad = Adapter()
+    return [T for T in domain(max_len) if _disagreements(ad, T)]
+
+
+def asis_failing_spellings(max_len: int = 4) -> List[str]:
+    """The spellings that bite into an internal path (fail with the un-repaired function) - the regression targets for an
+    end-to-end GC replay, whether or not the collector has been repaired."""
+    def bites(T: str) -> bool:
+        if T == "" or set(T) == {"/"}:
+            return False
+        return any(p.startswith(T) or ("/" + p).startswith(T) for p in INTERNAL)
+    return [T for T in domain(max_len) if bites(T)]
 
 
 def run_normalize(ctx: Ctx, quick: bool) -> None:
     max_len = 3 if quick else 4
+    ad = Adapter()
+    mode = probe_mode(ad)                    # which model mode is the faithful one for the code as it is
+    ctx.cov["normalize_mode"] = mode
+    ctx.cov["normalize_real_functions"] = {"listed": ad.listed_name, "referenced": ad.reach_name}
     out = os.path.join(scratch_dir("norm"), "normalize.ndjson")
+    # as-is code: the defect's exact extent (Characterisation) is the model result; repaired code: RepairedAgrees is the
+    # faithful theorem.  Both are checked in either case (they are facts about the two modes of the model).
     cfg = tlc.make_cfg(spec="Spec", constants={"MaxLen": max_len},
                        invariants=["Characterisation", "RepairedAgrees", "UsableUnlessBites"], postcondition="Export")
     res = tlc.run_tlc("MC_NormalizePath", cfg, env={"VERIF_OUT": out}, timeout_s=900, workers=4,
-                      label=f"MC_NormalizePath MaxLen={max_len} (Characterisation, RepairedAgrees)")
+                      label=f"MC_NormalizePath MaxLen={max_len} (Characterisation, RepairedAgrees); faithful mode = {mode}")
     ctx.add_tlc(res)
     if not res.ok:
         ctx.violation("model:NormalizePath:" + "+".join(res.violated or ["error"]),
                       f"TLC: {res.violated} violated in the normalisation model", res.error_trace[:4000])
         return
-    # companion: the as-is function must FAIL NormalizeAgrees somewhere in the domain (S3 is reachable)
+    # companion: the as-is function must FAIL NormalizeAgrees somewhere in the domain (the S3 defect is reachable)
     cfg0 = tlc.make_cfg(spec="Spec", constants={"MaxLen": 1}, invariants=["AsIsAgrees"])
     res0 = tlc.run_tlc("MC_NormalizePath", cfg0, env={"VERIF_OUT": os.devnull}, timeout_s=300, workers=1,
                        label="MC_NormalizePath AsIsAgrees (must fail)")
     ctx.add_tlc(res0)
     if "AsIsAgrees" not in res0.violated:
         raise MachineryError("anti-vacuity: the as-is normalisation model no longer violates NormalizeAgrees on any spelling")
-    ctx.cov["normalize_anti_vacuity"] = "AsIsAgrees violated as expected; RepairedAgrees holds (DESIGN 7.1 candidate fix modelled)"
+    ctx.cov["normalize_anti_vacuity"] = "as-is mode violates NormalizeAgrees (AsIsAgrees fails); repaired mode satisfies it (RepairedAgrees holds)"
 
     rows = [json.loads(line) for line in open(out)]
     if len(rows) != res.distinct:
         raise MachineryError(f"exported {len(rows)} spellings but TLC checked {res.distinct} states")
-    norm = _real_normalizer()
     drift = 0
     compared = 0
     model_failing: List[str] = []
     real_failing: List[str] = []
+
+    def note_drift(T: str, inp: str, model: Any, real: Any) -> None:
+        nonlocal drift
+        drift += 1
+        if drift <= 5:
+            ctx.cov.setdefault("normalize_drift_examples", []).append({"T": T, "input": inp, "model": model, "real": real})
+
     for row in rows:
         T = "".join(row["T"])
-        # (b) differential on the complete input table
-        for e in row["table"]:
-            inp, want = "".join(e["inp"]), "".join(e["out"])
-            compared += 1
-            if norm(T, inp) != want:
-                drift += 1
-                if drift <= 5:
-                    ctx.cov.setdefault("normalize_drift_examples", []).append({"T": T, "input": inp, "model": want, "real": norm(T, inp)})
-        if not (row["agrees"] and row["distinct"]):
+        # (b) differential: the faithful mode's tables against the real functions
+        if mode == "asis":
+            for e in row["table"]:
+                inp, want = "".join(e["inp"]), "".join(e["out"])
+                compared += 1
+                got = ad.normalize(T, inp)
+                if got != want:
+                    note_drift(T, inp, want, got)
+        else:
+            for e in row["candR"]:
+                inp, want = "".join(e["inp"]), "".join(e["out"])
+                compared += 1
+                got = ad.candidate(T, inp)
+                if got != want:
+                    note_drift(T, inp, want, got)
+            for e in row["reachR"]:
+                inp, want_set = "".join(e["inp"]), sorted("".join(x) for x in e["out"])
+                compared += 1
+                got_set = sorted(ad.reach(T, inp))
+                if got_set != want_set:
+                    note_drift(T, inp, want_set, got_set)
+        faithful_ok = (row["agrees"] and row["distinct"]) if mode == "asis" else row["repairedAgrees"]
+        if not faithful_ok:
             model_failing.append(T)
-        # (c) the requirement, judged on the REAL function
-        bad = _disagreements(norm, T)
+        # (c) the requirement, judged on the REAL functions
+        bad = _disagreements(ad, T)
         ctx.count_case(("normalize", T), nontrivial=bool(row["bites"]) or bool(bad))
         if bad:
             real_failing.append(T)
             cls = spelling_class(T)
             b = bad[0]
             ctx.violation(f"gc-normalize:{cls}",
-                          f"table location {T!r}: listed path {b['file']!r} normalises to {b['normalized_listed']!r} but its referenced form "
-                          f"{b['referenced']!r} normalises to {b['normalized_referenced']!r} - garbage_collect would not recognise the live file "
+                          f"table location {T!r}: listed path {b['file']!r} is keyed {b['normalized_listed']!r} but its referenced form "
+                          f"{b['referenced']!r} is keyed {b['normalized_referenced']!r} ({b['form']}) - garbage_collect would not recognise the live file "
                           f"({len(bad)} disagreeing (file, form) pairs for this spelling)",
                           {"table_location": T, "class": cls, "disagreements": bad[:12]})
     ctx.count_traces(compared)
@@ -160,6 +241,7 @@ def run_normalize(ctx: Ctx, quick: bool) -> None:
     ctx.cov["normalize_model_drift_notes"] = drift
     ctx.cov["normalize_failing_spellings_model"] = sorted(model_failing)
     ctx.cov["normalize_failing_spellings_real"] = sorted(real_failing)
+    ctx.cov["normalize_asis_failing_spellings"] = sorted("".join(r["T"]) for r in rows if not (r["agrees"] and r["distinct"]))
     if sorted(model_failing) != sorted(real_failing):
         ctx.cov["normalize_failing_set_differs_from_model"] = True
     ctx.assume("NormalizeAgrees is judged on three referenced spellings of an internal file (relative, Iceberg '/x', <location>/x) and the "
@@ -174,6 +256,7 @@ def _selftest() -> None:  # pragma: no cover - manual use: python -m harness.nor
     print(json.dumps({k: v for k, v in ctx.cov.items() if k.startswith("normalize")}, indent=1))
     print("violations:", [v["signature"] for v in ctx.violations])
     print("failing_spellings():", failing_spellings(3))
+    print("asis_failing_spellings():", asis_failing_spellings(3))
 
 
 if __name__ == "__main__":  # pragma: no cover
